@@ -563,6 +563,128 @@ theorem norm_amp_semicolon_string_rel_partial (puny : Str → Str) (o : Normaliz
   string_of_grammar_rel puny o ir _ _ u u' hg hg' hport
     (normG_amp_semicolon_partial puny o hl hts hf g q q' hq a L1 L2 x y hd' hd hy hx)
 
+/-! ## a tracking item in front of the first item, alone; escape spelling -/
+
+/-- on the pieces -/
+theorem normG_tracking_item_first (puny : Str → Str) (o : Normalize.Opts) (hl : o.lowercase = false)
+    (hts : o.stripTrailingSlash = true) (g : UrlG) (q q' : Str) (b : QItem) (L2 : List QItem) (x : QItem)
+    (hqg : g.query = some q')
+    (hq : decoded q = x :: b :: L2) (hq' : decoded q' = b :: L2)
+    (hb : o.fixCommonMistakes = true → dropAmp (serializeItem b) = serializeItem b)
+    (hx : keepItem o (hostKey puny g.hostname) (if o.fixCommonMistakes then seenHead x else x) = false) :
+    normG puny o ({ g with query := some q } : UrlG) = normG puny o g := by
+  refine normG_congr puny o g _ ?_ ?_ ?_
+  · rfl
+  · rfl
+  intro po
+  rw [record_query, record_query_self g _ po hqg]
+  exact norm_tracking_item_first puny o hl hts _ (g.record po) q q' b L2 x hq hq' hb hx
+
+/-- **a tracking item inserted in FRONT of the first item is irrelevant on strings**, when the
+item that becomes second does not start with `amp;` -/
+theorem norm_tracking_item_first_string (puny : Str → Str) (o : Normalize.Opts) (hl : o.lowercase = false)
+    (hts : o.stripTrailingSlash = true) (ir : Bool) (g : UrlG) (q q' : Str) (b : QItem) (L2 : List QItem)
+    (x : QItem) (hqg : g.query = some q')
+    (hq : decoded q = x :: b :: L2) (hq' : decoded q' = b :: L2)
+    (hb : o.fixCommonMistakes = true → dropAmp (serializeItem b) = serializeItem b)
+    (hx : keepItem o (hostKey puny g.hostname) (if o.fixCommonMistakes then seenHead x else x) = false)
+    (hg : InClass ir g) (hg' : InClass ir { g with query := some q }) (hport : portVal g.port ≠ none) :
+    normalizeUrlString puny id o ir ({ g with query := some q } : UrlG).str =
+      normalizeUrlString puny id o ir g.str :=
+  string_of_grammar puny o ir _ _ hg hg' hport
+    (normG_tracking_item_first puny o hl hts g q q' b L2 x hqg hq hq' hb hx)
+
+/-- … and for every `u`, `u'` whose cleaned, resolved forms are the two strings -/
+theorem norm_tracking_item_first_string_rel (puny : Str → Str) (o : Normalize.Opts) (hl : o.lowercase = false)
+    (hts : o.stripTrailingSlash = true) (ir : Bool) (g : UrlG) (q q' : Str) (b : QItem) (L2 : List QItem)
+    (x : QItem) (hqg : g.query = some q')
+    (hq : decoded q = x :: b :: L2) (hq' : decoded q' = b :: L2)
+    (hb : o.fixCommonMistakes = true → dropAmp (serializeItem b) = serializeItem b)
+    (hx : keepItem o (hostKey puny g.hostname) (if o.fixCommonMistakes then seenHead x else x) = false)
+    (u u' : Str) (hg : InClassOf ir g u) (hg' : InClassOf ir { g with query := some q } u')
+    (hport : portVal g.port ≠ none) :
+    normalizeUrlString puny id o ir u' = normalizeUrlString puny id o ir u :=
+  string_of_grammar_rel puny o ir _ _ u u' hg hg' hport
+    (normG_tracking_item_first puny o hl hts g q q' b L2 x hqg hq hq' hb hx)
+
+/-- on the pieces -/
+theorem normG_tracking_item_alone (puny : Str → Str) (o : Normalize.Opts) (hl : o.lowercase = false)
+    (hts : o.stripTrailingSlash = true) (g : UrlG) (q : Str) (x : QItem)
+    (hqg : g.query.getD [] = [])
+    (hq : decoded q = [x])
+    (hx : keepItem o (hostKey puny g.hostname) (if o.fixCommonMistakes then seenHead x else x) = false) :
+    normG puny o ({ g with query := some q } : UrlG) = normG puny o g := by
+  refine normG_congr puny o g _ ?_ ?_ ?_
+  · rfl
+  · rfl
+  intro po
+  have e : g.record po = { g.record po with query := [] } := by simp [UrlG.record, hqg]
+  rw [record_query, e]
+  exact norm_tracking_item_alone puny o hl hts _ (g.record po) q x hq hx
+
+/-- **a query made of one tracking item is irrelevant on strings**: `…/p?utm_source=x` and `…/p`
+(or `…/p?`) -/
+theorem norm_tracking_item_alone_string (puny : Str → Str) (o : Normalize.Opts) (hl : o.lowercase = false)
+    (hts : o.stripTrailingSlash = true) (ir : Bool) (g : UrlG) (q : Str) (x : QItem)
+    (hqg : g.query.getD [] = []) (hq : decoded q = [x])
+    (hx : keepItem o (hostKey puny g.hostname) (if o.fixCommonMistakes then seenHead x else x) = false)
+    (hg : InClass ir g) (hg' : InClass ir { g with query := some q }) (hport : portVal g.port ≠ none) :
+    normalizeUrlString puny id o ir ({ g with query := some q } : UrlG).str =
+      normalizeUrlString puny id o ir g.str :=
+  string_of_grammar puny o ir _ _ hg hg' hport
+    (normG_tracking_item_alone puny o hl hts g q x hqg hq hx)
+
+/-- … and for every `u`, `u'` whose cleaned, resolved forms are the two strings -/
+theorem norm_tracking_item_alone_string_rel (puny : Str → Str) (o : Normalize.Opts) (hl : o.lowercase = false)
+    (hts : o.stripTrailingSlash = true) (ir : Bool) (g : UrlG) (q : Str) (x : QItem)
+    (hqg : g.query.getD [] = []) (hq : decoded q = [x])
+    (hx : keepItem o (hostKey puny g.hostname) (if o.fixCommonMistakes then seenHead x else x) = false)
+    (u u' : Str) (hg : InClassOf ir g u) (hg' : InClassOf ir { g with query := some q } u')
+    (hport : portVal g.port ≠ none) :
+    normalizeUrlString puny id o ir u' = normalizeUrlString puny id o ir u :=
+  string_of_grammar_rel puny o ir _ _ u u' hg hg' hport
+    (normG_tracking_item_alone puny o hl hts g q x hqg hq hx)
+
+/-- on the pieces -/
+theorem normG_escape_spelling (puny : Str → Str) (o : Normalize.Opts) (hl : o.lowercase = false)
+    (hts : o.stripTrailingSlash = true) (g : UrlG) (path' : Str) (Q' F' : Option Str)
+    (hpath : unquotePath path' = unquotePath g.path)
+    (hq : decoded (Q'.getD []) = decoded (g.query.getD []))
+    (hf : unquoteFragment (F'.getD []) = unquoteFragment (g.fragment.getD [])) :
+    normG puny o ({ g with path := path', query := Q', fragment := F' } : UrlG) = normG puny o g := by
+  refine normG_congr puny o g _ ?_ ?_ ?_
+  · rfl
+  · rfl
+  intro po
+  exact norm_escape_spelling puny o hl hts _ (g.record po) path' (Q'.getD []) (F'.getD []) hpath hq hf
+
+/-- **the spelling of percent-escapes in path, query and fragment is irrelevant on strings**
+(`strip_trailing_slash`): the three texts agree after unescaping -/
+theorem norm_escape_spelling_string (puny : Str → Str) (o : Normalize.Opts) (hl : o.lowercase = false)
+    (hts : o.stripTrailingSlash = true) (ir : Bool) (g : UrlG) (path' : Str) (Q' F' : Option Str)
+    (hpath : unquotePath path' = unquotePath g.path)
+    (hq : decoded (Q'.getD []) = decoded (g.query.getD []))
+    (hf : unquoteFragment (F'.getD []) = unquoteFragment (g.fragment.getD []))
+    (hg : InClass ir g) (hg' : InClass ir { g with path := path', query := Q', fragment := F' })
+    (hport : portVal g.port ≠ none) :
+    normalizeUrlString puny id o ir ({ g with path := path', query := Q', fragment := F' } : UrlG).str =
+      normalizeUrlString puny id o ir g.str :=
+  string_of_grammar puny o ir _ _ hg hg' hport
+    (normG_escape_spelling puny o hl hts g path' Q' F' hpath hq hf)
+
+/-- … and for every `u`, `u'` whose cleaned, resolved forms are the two strings -/
+theorem norm_escape_spelling_string_rel (puny : Str → Str) (o : Normalize.Opts) (hl : o.lowercase = false)
+    (hts : o.stripTrailingSlash = true) (ir : Bool) (g : UrlG) (path' : Str) (Q' F' : Option Str)
+    (hpath : unquotePath path' = unquotePath g.path)
+    (hq : decoded (Q'.getD []) = decoded (g.query.getD []))
+    (hf : unquoteFragment (F'.getD []) = unquoteFragment (g.fragment.getD []))
+    (u u' : Str) (hg : InClassOf ir g u)
+    (hg' : InClassOf ir { g with path := path', query := Q', fragment := F' } u')
+    (hport : portVal g.port ≠ none) :
+    normalizeUrlString puny id o ir u' = normalizeUrlString puny id o ir u :=
+  string_of_grammar_rel puny o ir _ _ u u' hg hg' hport
+    (normG_escape_spelling puny o hl hts g path' Q' F' hpath hq hf)
+
 /-! ## non-vacuity, and a witness outside the class -/
 
 /-- `https://www.a.com/p?a=1` as a string of the grammar -/
@@ -619,5 +741,9 @@ example :
     normalizeUrlString id id {} false "http://u@a.com:x/".toList ≠
       normalizeUrlString id id {} false "http://a.com:x/".toList := by
   decide +kernel
+
+example : InClass false { exG with path := "/%7Ep".toList, query := some "%61=1".toList } ∧
+    unquotePath "/%7Ep".toList = unquotePath "/~p".toList ∧
+    decoded "%61=1".toList = decoded "a=1".toList := by decide +kernel
 
 end Ural.Props.C04
